@@ -101,7 +101,7 @@ def run_c13(tier, seed):
                       'machine-level internal table (it does not compile them)',
                       'normalisation (vf/diff.py): false completion-guard evaluations dropped, return code -> (handled, zero), '
                       'pending counts summed over message and deferred queue / pool, any- and direct-entry wrappers stripped where the statement leaves them open',
-                      'top-level enqueue_event / single-step draining are not used (a direct process_event overtakes enqueued events in back but not in the backmp11 pool: API semantics outside the statement); nested submissions use process_event; failpoints not on machines with completion rows and not combined with nested submissions; a comparison ends where a submachine's own entry behaviour throws (the inner ids of that submachine are then unspecified: back sets them before, backmp11 after that behaviour); a nested submission made inside the entry cascade through an entry pseudo state goes to the root, not to the submachine being entered (the order of the pseudo state continuation relative to events stored by its own cascade is not part of any statement and differs between the families)']
+                      'top-level enqueue_event / single-step draining are not used (a direct process_event overtakes enqueued events in back but not in the backmp11 pool: API semantics outside the statement); nested submissions use process_event; failpoints not on machines with completion rows and not combined with nested submissions; a comparison ends where the own entry behaviour of a submachine throws (the inner ids of that submachine are then unspecified: back sets them before, backmp11 after that behaviour); a nested submission made inside the entry cascade through an entry pseudo state goes to the root, not to the submachine being entered (the order of the pseudo state continuation relative to events stored by its own cascade is not part of any statement and differs between the families)']
     known = engine.load_known()
     n = 50 if tier == 'quick' else 500
     hs = {m: engine.Harness(m, cfgs) for m, cfgs in C13_SETS}
